@@ -43,6 +43,9 @@ pub struct Spec {
     /// extension lookup. Empty = no typed nodes. The first two payload bytes of a typed node are
     /// its lookup type: the node is written as a real `layout::Lookup` (type, flag 0, count, offsets).
     pub lookup_types: Vec<Option<(bool, u16)>>,
+    /// payloads were supplied by the generator (near-twin workload) instead of `make_payload`;
+    /// they are then part of the JSON form so that a replay rebuilds the same objects
+    pub custom_payload: bool,
 }
 
 pub const GSUB_EXT: u16 = 7;
@@ -96,7 +99,19 @@ impl Spec {
                 .map(|(i, n)| Rc::new(make_payload(i, n.size)))
                 .collect(),
         };
-        Spec { nodes, payload, rep_cache: Default::default(), lookup_types: vec![] }
+        Spec { nodes, payload, rep_cache: Default::default(), lookup_types: vec![], custom_payload: false }
+    }
+
+    /// Spec whose payload bytes are chosen by the generator (one byte string per node, of the
+    /// node's size; the bytes under the offset fields are ignored). Used by the near-twin
+    /// workload, where DIFFERENT nodes deliberately carry identical bytes.
+    pub fn with_payloads(nodes: Vec<NodeSpec>, payloads: Vec<Vec<u8>>) -> Spec {
+        let payload = payloads.into_iter().map(Rc::new).collect();
+        Spec { nodes, payload, rep_cache: Default::default(), lookup_types: vec![], custom_payload: true }
+    }
+
+    pub fn payload_of(&self, idx: usize) -> &[u8] {
+        &self.payload[idx]
     }
 
     /// Mark nodes as GSUB / GPOS lookups (see `lookup_types`); writes the type into the
@@ -131,6 +146,9 @@ impl Spec {
     pub fn well_formed(&self) -> Result<(), String> {
         if self.nodes.is_empty() {
             return Err("empty".into());
+        }
+        if self.payload.len() != self.nodes.len() || self.nodes.iter().zip(&self.payload).any(|(n, p)| p.len() != n.size as usize) {
+            return Err("payload length differs from node size".into());
         }
         if !self.lookup_types.is_empty() {
             if self.lookup_types.len() != self.nodes.len() {
@@ -250,6 +268,10 @@ impl Spec {
             let typed: Vec<Value> = self.lookup_types.iter().enumerate().filter_map(|(i, t)| t.map(|(g, ty)| json!([i, if g { "GSUB" } else { "GPOS" }, ty]))).collect();
             return json!({"sizes": sizes, "links_from_to_bits_pos_adj": links, "lookups_node_table_type": typed});
         }
+        if self.custom_payload {
+            let pl: Vec<String> = self.payload.iter().map(|p| vf_core::hex(p)).collect();
+            return json!({"sizes": sizes, "links_from_to_bits_pos_adj": links, "payloads_hex": pl});
+        }
         json!({"sizes": sizes, "links_from_to_bits_pos_adj": links})
     }
 
@@ -272,6 +294,18 @@ impl Spec {
                 pos: g(3)? as u32,
                 adj: g(4)? as u32,
             });
+        }
+        if let Some(pl) = v["payloads_hex"].as_array() {
+            let mut payloads = vec![];
+            for h in pl {
+                let h = h.as_str()?.as_bytes();
+                let mut b = Vec::with_capacity(h.len() / 2);
+                for c in h.chunks(2) {
+                    b.push(u8::from_str_radix(std::str::from_utf8(c).ok()?, 16).ok()?);
+                }
+                payloads.push(b);
+            }
+            return Some(Spec::with_payloads(nodes, payloads));
         }
         let spec = Spec::new(nodes, None);
         if let Some(typed) = v["lookups_node_table_type"].as_array() {
@@ -522,6 +556,8 @@ impl Validate for NodeW<'_> {
 pub struct Resolved {
     /// distinct (node, position) placements reached from the root
     pub placements: usize,
+    /// distinct output positions among the placements (fewer than nodes = the compiler merged objects)
+    pub distinct_positions: usize,
     /// placements - distinct nodes reached (copies made by the packer)
     pub duplicates: usize,
     pub links_followed: u64,
@@ -695,6 +731,7 @@ pub fn resolve(spec: &Spec, out: &[u8]) -> Result<Resolved, Bad> {
         }
     }
     r.placements = seen.len();
+    r.distinct_positions = seen.iter().map(|(_, p)| *p).collect::<HashSet<u64>>().len();
     r.duplicates = seen.len() - spec.nodes.len();
     r.exact_cover = covered == out.len() as u64;
     Ok(r)
